@@ -1,4 +1,5 @@
-"""C03 finding: keyspace="" (a set, zero-length [string]) makes PREPARE and BATCH frames whose flags contradict their body.
+"""C03 NOTE (not a finding - lead triage: an empty keyspace name is no request the property speaks about; the check records
+these cases as `open`, it does not judge them; this script always exits 0): keyspace="" (a set, zero-length [string]) makes PREPARE and BATCH frames whose flags contradict their body.
 
 The per-request keyspace is a [string] announced by a flag (v5 / DSE_V2: PREPARE <flags> 0x01, BATCH <flags> 0x80).
 QueryMessage tests `self.keyspace is not None` both for the flag and for the field; PrepareMessage and BatchMessage mix
@@ -9,7 +10,7 @@ QueryMessage tests `self.keyspace is not None` both for the flag and for the fie
     two bytes the flags do not announce;
   * BATCH v2-v4 / DSE_V1, keyspace="": not refused (`if self.keyspace:`), silently dropped - QUERY and PREPARE refuse it.
 
-Run: /venv/bin/python /verif/findings/C03_empty_keyspace_flag_body_mismatch.py     (exit 1 = defect present)
+Run: /venv/bin/python /verif/findings/note_C03_empty_keyspace_flag_body_mismatch.py     (informational, exit 0)
 Smallest fix: test `self.keyspace is not None` everywhere: PrepareMessage.send_body (the write), BatchMessage.send_body
 (the flag computation and the refusal on versions without per-request keyspace).
 """
@@ -35,13 +36,13 @@ f = enc(PrepareMessage("q", keyspace=""), 5)              # header 9, <query> 4+
 flags, rest = int.from_bytes(f[14:18], "big"), f[18:]
 print("PREPARE v5 keyspace='': flags=%#x, bytes after flags=%r" % (flags, rest.hex()))
 if bool(flags & 0x01) != (len(rest) == 2):
-    print("  DEFECT: with_keyspace flag %s but keyspace field %s" % ("set" if flags & 1 else "clear", "present" if rest else "absent"))
+    print("  NOTE: with_keyspace flag %s but keyspace field %s" % ("set" if flags & 1 else "clear", "present" if rest else "absent"))
     bad += 1
 f = enc(BatchMessage(BatchType.LOGGED, [], 1, keyspace=""), 5)   # header 9, <type> 1, <n> 2, <consistency> 2, <flags> 4, [<keyspace>]
 flags, rest = int.from_bytes(f[14:18], "big"), f[18:]
 print("BATCH   v5 keyspace='': flags=%#x, bytes after flags=%r" % (flags, rest.hex()))
 if bool(flags & 0x80) != (len(rest) == 2):
-    print("  DEFECT: with_keyspace flag %s but keyspace field %s" % ("set" if flags & 0x80 else "clear", "present" if rest else "absent"))
+    print("  NOTE: with_keyspace flag %s but keyspace field %s" % ("set" if flags & 0x80 else "clear", "present" if rest else "absent"))
     bad += 1
 for name, msg in (("QUERY  ", QueryMessage("q", 1, keyspace="")), ("PREPARE", PrepareMessage("q", keyspace="")),
                   ("BATCH  ", BatchMessage(BatchType.LOGGED, [], 1, keyspace=""))):
@@ -49,5 +50,5 @@ for name, msg in (("QUERY  ", QueryMessage("q", 1, keyspace="")), ("PREPARE", Pr
     print("%s v4 keyspace='': %s" % (name, "refused" if r is None else "encoded, keyspace silently dropped"))
     if r is not None:
         bad += 1
-print("DEFECT: %d inconsistencies" % bad if bad else "ok")
-sys.exit(1 if bad else 0)
+print("NOTE: %d inconsistencies (not judged)" % bad if bad else "ok")
+sys.exit(0)
